@@ -41,7 +41,9 @@ def lib_crash(out):
             continue
         if fn.startswith(("verif/", "main.")):
             return None            # the harness itself
-        if "." not in fn.split("/")[0]:
+        head, _, last = fn.rpartition("/")
+        pkg = (head + "/" if head else "") + last.split(".")[0]
+        if "." not in pkg.split("/")[0]:
             continue               # standard library (net/url, encoding/json, strings ...): look at who called it
         return fn if fn.startswith(LIB) else None
     return None
